@@ -228,8 +228,13 @@ func report(prop, tier string, seed int, ps *propSpec, w *world, rr *runResult, 
 		"violations":  len(violations),
 	}
 	b, _ := json.MarshalIndent(ev, "", " ")
-	os.MkdirAll(filepath.Join(verifDir, "evidence"), 0o755)
-	if err := os.WriteFile(filepath.Join(verifDir, "evidence", prop+".json"), append(b, '\n'), 0o644); err != nil {
+	evDir := filepath.Join(verifDir, "evidence")
+	if devRun {
+		// filtered / exploratory runs do not overwrite the record of the registered check
+		evDir = filepath.Join(verifDir, "out", "evidence-dev")
+	}
+	os.MkdirAll(evDir, 0o755)
+	if err := os.WriteFile(filepath.Join(evDir, prop+".json"), append(b, '\n'), 0o644); err != nil {
 		fmt.Fprintln(os.Stderr, err)
 		return 2
 	}
